@@ -45,6 +45,9 @@ ValidElems(f, d, bs) == Len(bs) = d * N(f) /\ \A i \in 1..d : ValidElem(f, Chunk
 Coords(f, d, bs) == [i \in 1..d |-> Trim(Chunk(bs, i, N(f)))]
 
 Ok(f, d, bs)  == [t |-> "ok", v |-> Coords(f, d, bs), enc |-> bs]
+\* v mod p for v < 8p (repeated subtraction)
+RECURSIVE ModSmall(_, _)
+ModSmall(v, p) == IF BLess(v, p) THEN v ELSE ModSmall(BSub(v, p), p)
 Err == [t |-> "err", v |-> <<>>, enc |-> <<>>]
 
 Expect(f, d, dec, inp, n) ==
@@ -58,6 +61,14 @@ Expect(f, d, dec, inp, n) ==
            THEN LET enc == AsBytes(inp, N(f)) \o Zeros((d - 1) * N(f)) IN Ok(f, d, enc)
            ELSE Err
     [] dec = "padded" -> Ok(f, 1, AsBytes(inp, N(f)))     \* fewer than N bytes: always a valid element
+    \* ---- elements produced by constructors / arithmetic, then observed through the encoders ----
+    \* new(v): the integer reduced modulo p, embedded as (v mod p, 0, ..)
+    [] dec = "new"    -> Ok(f, d, AsBytes(ModSmall(Trim(inp), Modulus(f)), N(f)) \o Zeros((d - 1) * N(f)))
+    \* x + (-x), x - x, x*y + (-(y*x)) with y = x + 1: zero, whatever the internal representation
+    [] dec \in {"zneg", "zsub", "zmul"} -> Ok(f, d, Zeros(nb))
+    \* a + b for the two encoded elements a, b: coordinate-wise sum modulo p
+    [] dec = "addc"   -> Ok(f, d, Concat([i \in 1..d |->
+                            AsBytes(ModSmall(BAdd(Trim(Chunk(inp, i, N(f))), Trim(Chunk(inp, d + i, N(f)))), Modulus(f)), N(f))]))
     [] dec = "many"   -> IF Len(inp) >= n * nb /\ \A j \in 1..n : ValidElems(f, d, Chunk(inp, j, nb))
                            THEN [t |-> "ok", v |-> [j \in 1..n |-> Coords(f, d, Chunk(inp, j, nb))], enc |-> SubSeq(inp, 1, n * nb)]
                            ELSE Err
@@ -101,7 +112,24 @@ ManyCases ==
               n \in {1, 2}, vs \in SeqsOf({<<>>, BSub(Modulus(fd[1]), BOne), Modulus(fd[1])}, 3) } :
           fd \in {x \in Combos : x[2] = 3} }
 
-Cases == {x \in ByteCases \cup IntCases \cup PadCases \cup ManyCases : Len(x.inp) >= 0}
+\* constructors and arithmetic results (the internal representation of the result need not be the
+\* canonical one; every encoder must still report the canonical value)
+NewVals(f) == {v \in Specials : Fits(v, N(f))}
+ExprCases ==
+  UNION { { Case(fd[1], fd[2], "new", AsBytes(v, N(fd[1])), 0) : v \in NewVals(fd[1]) } : fd \in Combos }
+  \cup
+  UNION { { Case(fd[1], fd[2], dec, Pack(fd[1], vs), 0) :
+              dec \in {"zneg", "zsub", "zmul"}, vs \in SeqsOf({v \in Specials \cup CoordVals(fd[1]) : BLess(v, Modulus(fd[1]))}, fd[2]) } :
+          fd \in {x \in Combos : x[2] = 1 \/ Full} }
+  \cup
+  UNION { { Case(fd[1], fd[2], "zneg", Pack(fd[1], vs), 0) :
+              vs \in SeqsOf({<<>>, BOne, BSub(Modulus(fd[1]), BOne)}, fd[2]) } : fd \in {x \in Combos : x[2] > 1} }
+  \cup
+  UNION { { Case(fd[1], fd[2], "addc", Pack(fd[1], va \o vb), 0) :
+              va \in SeqsOf({<<>>, BOne, BSub(Modulus(fd[1]), BOne), BSub(Modulus(fd[1]), BN(2))}, fd[2]),
+              vb \in SeqsOf({BOne, BSub(Modulus(fd[1]), BOne)}, fd[2]) } : fd \in Combos }
+
+Cases == {x \in ByteCases \cup IntCases \cup PadCases \cup ManyCases \cup ExprCases : Len(x.inp) >= 0}
 
 Init == c \in Cases
 Next == UNCHANGED c
